@@ -149,6 +149,17 @@ func (e *Engine) runHooks(chs []*ChanObj, ready func() bool) bool {
 				}
 			}
 		}
+		if e.anyBlock.Fn != nil {
+			e.tracef("block-hook (global)")
+			e.declined = false
+			e.callValue(e.anyBlock)
+			if !e.declined {
+				acted = true
+			}
+			if ready() {
+				return true
+			}
+		}
 		if !acted {
 			return ready()
 		}
@@ -304,6 +315,16 @@ func (e *Engine) selectOp(fr *Frame, x *ssa.Select) Value {
 			e.lastTick = map[*ssa.Select]bool{}
 		}
 		e.lastTick[x] = chosen >= 0 && states[chosen].c != nil && states[chosen].c.ticker && len(def) > 0
+	}
+	if chosen >= 0 && !states[chosen].send && states[chosen].c != nil && states[chosen].c.closed &&
+		len(states[chosen].c.buf) == 0 && len(states[chosen].c.parked) == 0 && e.lassoBound > 0 {
+		if e.closedTaken == nil {
+			e.closedTaken = map[*ssa.Select]int{}
+		}
+		e.closedTaken[x]++
+		if e.closedTaken[x] > e.lassoBound {
+			e.abort("LASSO", fmt.Sprintf("select at %s took the closed-channel (termination signal) case %d times without terminating", pos, e.closedTaken[x]))
+		}
 	}
 	// result tuple: (index, recvOk, r_0..)
 	res := TupleV{e.intConst(64, int64(chosen)), e.tb.Bool(false)}
